@@ -14,6 +14,9 @@ pub mod c12;
 pub mod c13;
 pub mod c14;
 pub mod c15;
+pub mod c16;
+pub mod c17;
+pub mod c18;
 
 pub fn spec(id: &str) -> Option<PropSpec> {
   Some(match id {
@@ -32,6 +35,9 @@ pub fn spec(id: &str) -> Option<PropSpec> {
     "C13" => c13::spec(),
     "C14" => c14::spec(),
     "C15" => c15::spec(),
+    "C16" => c16::spec(),
+    "C17" => c17::spec(),
+    "C18" => c18::spec(),
     _ => return None,
   })
 }
